@@ -338,6 +338,12 @@ impl World {
 
     /// Read every complete frame that is readable right now on connection `ci`.
     async fn read_available(&mut self, ci: usize) -> bool {
+        self.read_available_as(ci, true).await
+    }
+
+    /// `delivered = false`: the bytes are looked at on the wire (for the comparison with the model)
+    /// but the peer application never read them, so they are no delivery for the property monitor.
+    async fn read_available_as(&mut self, ci: usize, delivered: bool) -> bool {
         let mut progress = false;
         loop {
             let got = match self.conns[ci].framed.as_mut() {
@@ -348,9 +354,11 @@ impl World {
                 Some(Some(Ok(b))) => {
                     let id = payload_id(&b);
                     self.conns[ci].wire.push(id);
-                    self.frame_log.push((self.op, ci + 1, id));
+                    if delivered {
+                        self.frame_log.push((self.op, ci + 1, id));
+                    }
                     progress = true;
-                    if self.auto_ack {
+                    if self.auto_ack && delivered {
                         self.ack_one(ci).await;
                     }
                 }
@@ -369,8 +377,10 @@ impl World {
     async fn close_current(&mut self) {
         if let Some(ci) = self.conns.len().checked_sub(1) {
             if self.conns[ci].framed.is_some() {
-                // complete frames already on the wire are observed (not processed / ACKed) before the drop
-                self.read_available(ci).await;
+                // complete frames already on the wire are observed (not processed / ACKed) before the drop;
+                // a stalled peer never read them: they do not count as deliveries
+                let delivered = !self.conns[ci].stalled;
+                self.read_available_as(ci, delivered).await;
                 if self.conns[ci].framed.is_some() {
                     self.conns[ci].framed = None;
                     self.conns[ci].peer_closed = true;
@@ -1012,6 +1022,8 @@ impl<'a> Mirror<'a> {
 // scenarios
 
 struct Outcome {
+    /// the scenario ran through its epilogue (peer up and ACKing until every live message resolved)
+    completed: bool,
     concrete: Vec<Op>,
     violations: Vec<(String, String)>,
     mismatch: Option<String>,
@@ -1116,6 +1128,10 @@ fn choose(rng: &mut SmallRng, w: &World, deadline: bool, style: u32, bigs: usize
 }
 
 /// Run one scenario on the real code; with a model, in lockstep with it.
+/// Set while replaying a recording that stopped before its epilogue (at the first divergence or
+/// violation): the at-least-once clause cannot be judged on it.
+static REPLAY_TRUNCATED: std::sync::atomic::AtomicBool = std::sync::atomic::AtomicBool::new(false);
+
 fn run_scenario(mut src: Source, e2e: bool, plan: BTreeMap<u64, Plan>, mut model: Option<&mut Model>, cap: usize, rep: &mut Report) -> Outcome {
     let rt = tokio::runtime::Builder::new_current_thread().enable_all().start_paused(true).build().unwrap();
     let out = rt.block_on(async {
@@ -1211,7 +1227,7 @@ fn run_scenario(mut src: Source, e2e: bool, plan: BTreeMap<u64, Plan>, mut model
                 break;
             }
         }
-        let completed = mismatch.is_none() && w.violations.is_empty() && concrete.len() <= 400;
+        let completed = mismatch.is_none() && w.violations.is_empty() && concrete.len() <= 400 && !REPLAY_TRUNCATED.load(std::sync::atomic::Ordering::Relaxed);
         w.monitor_final(completed);
         let frames: usize = if e2e { w.hlog.lock().unwrap().deliveries.len() } else { w.conns.iter().map(|c| c.wire.len()).sum() };
         let distinct: BTreeSet<u64> = if e2e {
@@ -1227,6 +1243,7 @@ fn run_scenario(mut src: Source, e2e: bool, plan: BTreeMap<u64, Plan>, mut model
             w.msgs.iter().map(|m| if m.result.is_some() { 'r' } else if m.cancelled_at.is_some() { 'c' } else { 'u' }).collect::<String>()
         );
         Outcome {
+            completed,
             concrete,
             violations: w.violations.clone(),
             mismatch,
@@ -1406,6 +1423,7 @@ fn replay_value(o: &Outcome, e2e: bool, plan: &BTreeMap<u64, Plan>) -> serde_jso
         "variant": if e2e { "e2e" } else { "scripted" },
         "ops": o.concrete.iter().map(|x| x.text()).collect::<Vec<_>>(),
         "plan": plan_json(plan),
+        "completed": o.completed,
     })
 }
 
@@ -1454,6 +1472,7 @@ pub fn run(o: &Opts) -> Report {
         let ops: Vec<Op> = v["ops"].as_array().map(|a| a.iter().filter_map(|x| x.as_str().and_then(Op::parse)).collect()).unwrap_or_default();
         let e2e = v["variant"].as_str() == Some("e2e");
         let plan = plan_parse(&v["plan"]);
+        REPLAY_TRUNCATED.store(!v["completed"].as_bool().unwrap_or(false), std::sync::atomic::Ordering::Relaxed);
         let needs_model = ops.iter().any(|x| matches!(x, Op::Fire | Op::FireEarly));
         let mut model = if needs_model { Some(Model::spawn()) } else { None };
         let out = run_scenario(Source::Fixed(&ops), e2e, plan.clone(), model.as_mut(), cap, &mut rep);
